@@ -209,8 +209,8 @@ impl Engine for C09 {
     }
     fn runs(&self, tier: Tier) -> u64 {
         match tier {
-            Tier::Quick => 40_000,
-            Tier::Thorough => 1_000_000,
+            Tier::Quick => 200_000,
+            Tier::Thorough => 2_400_000,
         }
     }
 
